@@ -156,6 +156,15 @@ func (s *Session) setConn(conn net.Conn, brw *bufio.ReadWriter) {
 	s.brw = brw
 }
 
+// currentConn returns the connection requests of the session are read from:
+// the accepted connection, or the TLS connection set by setConn.
+func (s *Session) currentConn() net.Conn {
+	s.mu.RLock()
+	defer s.mu.RUnlock()
+
+	return s.conn
+}
+
 // Get takes key and returns the associated value from the session.
 func (s *Session) Get(key string) (interface{}, bool) {
 	s.mu.RLock()
